@@ -31,6 +31,8 @@ type Document struct {
 	parts map[string][]byte
 	// 图片ID计数器，确保每个图片都有唯一的ID
 	nextImageID int
+	// 打开的文档中 styles.xml 关系原有的ID（为空表示没有，保存时使用 rId1）
+	stylesRelationshipID string
 }
 
 // Body 表示文档主体
@@ -2957,7 +2959,11 @@ func (d *Document) serializeRelationships() {
 func (d *Document) serializeDocumentRelationships() {
 	// styles.xml 的关系默认使用 rId1；打开的文档可能已把 rId1 用于其他部件，
 	// 此时为 styles.xml 选择一个未被占用的ID，避免同一关系文件中出现重复ID
+	// 打开的文档中 styles.xml 已有关系ID时保持不变（其他部件可能引用它）
 	stylesID := "rId1"
+	if d.stylesRelationshipID != "" {
+		stylesID = d.stylesRelationshipID
+	}
 	for _, rel := range d.documentRelationships.Relationships {
 		if rel.ID == stylesID {
 			stylesID = unusedRelationshipID(d.documentRelationships.Relationships, len(d.documentRelationships.Relationships)+2)
@@ -3010,7 +3016,12 @@ func (d *Document) nextDocumentRelationshipID() string {
 	if d.documentRelationships == nil {
 		return "rId2"
 	}
-	return unusedRelationshipID(d.documentRelationships.Relationships, len(d.documentRelationships.Relationships)+2)
+	if d.stylesRelationshipID == "" {
+		return unusedRelationshipID(d.documentRelationships.Relationships, len(d.documentRelationships.Relationships)+2)
+	}
+	// styles.xml 的关系不在列表中，但它的ID同样已被占用
+	reserved := append([]Relationship{{ID: d.stylesRelationshipID}}, d.documentRelationships.Relationships...)
+	return unusedRelationshipID(reserved, len(d.documentRelationships.Relationships)+2)
 }
 
 // serializeStyles 序列化样式
@@ -3156,6 +3167,8 @@ func (d *Document) parseDocumentRelationships() error {
 	for _, rel := range relationships.Relationships {
 		if rel.Type != "http://schemas.openxmlformats.org/officeDocument/2006/relationships/styles" {
 			filteredRels = append(filteredRels, rel)
+		} else if d.stylesRelationshipID == "" {
+			d.stylesRelationshipID = rel.ID
 		}
 	}
 
